@@ -398,7 +398,7 @@ Definition st_loc (x : sstatus) : N * N * N :=
   end%N.
 
 Definition st_exn (x : sstatus) : N :=
-  match x with S71 (Some e) | SDone (Some e) => exn_code e | _ => 0%N end.
+  match x with SDone (Some e) => exn_code e | _ => 0%N end.   (* visible once the thread has died *)
 
 Definition b2N (b : bool) : N := if b then 1%N else 0%N.
 Definition optN (x : option nat) : N := match x with None => 0%N | Some k => N.of_nat (S k) end.
